@@ -50,8 +50,8 @@ I128F = ["secp256k1_u128_load", "secp256k1_u128_from_u64", "secp256k1_u128_to_u6
 I128G = ["secp256k1_i128_load", "secp256k1_i128_from_i64", "secp256k1_i128_to_i64", "secp256k1_i128_to_u64", "secp256k1_i128_eq_var", "secp256k1_i128_check_pow2", "secp256k1_i128_rshift"]
 fam("u128", I128, "h_u128", I128F, variants=("W128", "W128S", "W128SV"))
 fam("i128", I128, "h_i128", I128G, variants=("W128", "W128S", "W128SV"))
-UNITS.append(U("C05.u128_mul_bounded.W128S", ["C05"], I128, "h_u128_mul_bounded", cfg="W128S", tier="thorough", bounded="a < 2^32",
-               functions=["secp256k1_u128_mul", "secp256k1_u128_accum_mul", "secp256k1_umul128"], timeout=900, replay=False))
+# (tried, undecided: struct-mode secp256k1_u128_mul / umul128 (32x32 decomposition) against the 128-bit product with one operand < 2^32:
+#  h_u128_mul_bounded, cfg W128S, 900 s timeout without result - not listed; in W128S the multiplier is covered only through the UF contract)
 
 UT = "harness/C05/arith_util.c"
 UBF = ["secp256k1_clz64_var", "secp256k1_ctz64_var", "secp256k1_ctz64_var_debruijn", "secp256k1_ctz32_var", "secp256k1_ctz32_var_debruijn", "secp256k1_rotr32", "secp256k1_sign_and_abs64", "secp256k1_int_cmov"]
@@ -60,9 +60,19 @@ UNITS.append(U("C05.util_bits.builtin_clz", ["C05"], UT, "h_util_bits", defs=["H
                note="clz64_var through __builtin_clzll (what configure selects on gcc/clang)"))
 fam("util_endian", UT, "h_util_endian", ["secp256k1_read_be32", "secp256k1_read_be64", "secp256k1_write_be32", "secp256k1_write_be64"], variants=("W128",))
 UTL = ["secp256k1_memczero", "secp256k1_is_zero_array", "secp256k1_memcmp_var"]
-# any length: needs hooks/C05_arith_util_loops.diff in the tree (loop contracts inside the two loops); thorough until the hook is in /repo
-UNITS.append(U("C05.util_loops", ["C05"], UT, "h_util_loops", defs=["UTIL_LC=1", "UTIL_PART=3"], loops=True, functions=UTL[1:], timeout=600, replay=False, tier="thorough",
-               note="loop contracts via SECP256K1_VERIF_LOOP (hooks/C05_arith_util_loops.diff); memczero: the whole-object havoc of a symbolic-size buffer did not get through SSA conversion in 10 min, see util_memczero_b192"))
+# any length: loop contracts supplied by the engine (--loop-contracts-file), no /repo edit; ghost globals verif_gi / verif_allzero live in the harness
+UNITS.append(U("C05.util_loops", ["C05"], UT, "h_util_loops", defs=["UTIL_LC=1", "UTIL_PART=3"], functions=UTL[1:], timeout=600, replay=False, tier="quick",
+               loop_contracts={
+                   "secp256k1_is_zero_array": {"for (i = 0; i < len; i++)": {
+                       "assigns": "i, acc",
+                       "invariants": "i <= len && (verif_gi < i ==> (acc == 0 ==> s[verif_gi] == 0)) && (verif_allzero ==> acc == 0)",
+                       "decreases": "len - i"}},
+                   "secp256k1_memcmp_var": {"for (i = 0; i < n; i++)": {
+                       "assigns": "i",
+                       "invariants": "i <= n && (verif_gi < i ==> p1[verif_gi] == p2[verif_gi])",
+                       "decreases": "n - i"}}},
+               closed_by="loop contracts (engine-supplied, ghost-index invariants, decreases clauses) on is_zero_array and memcmp_var",
+               note="len symbolic up to 2^40. memczero: a whole-object havoc of a symbolic-size buffer did not get through SSA conversion in 10 min, see util_memczero_b192"))
 # bounded stand-ins on the unchanged tree
 UNITS.append(U("C05.util_loops_b24", ["C05"], UT, "h_util_loops", unwind=26, bounded="len<=24", functions=UTL, timeout=600, replay=False))
 UNITS.append(U("C05.util_memczero_b192", ["C05"], UT, "h_util_loops", defs=["UTIL_PART=4", "UTIL_LEN_MAX=192", "UTIL_FIXEDBUF=1"], unwind=194, bounded="len<=192 (every call site in src/ passes a constant <= 162)", functions=UTL[:1], timeout=900, replay=False))
@@ -71,16 +81,16 @@ UNITS.append(U("C05.util_memczero_b192", ["C05"], UT, "h_util_loops", defs=["UTI
 FM = "harness/C05/arith_femul.c"
 UF = ["secp256k1_u128_mul", "secp256k1_u128_accum_mul"]
 UNITS.append(U("C05.fe_mul_inner", ["C05"], FM, "h_fe_mul_inner", verify=True, replace=UF, assumed=[], functions=["secp256k1_fe_mul_inner"],
-               timeout=1500, tier="quick", min_obl=300, replay=False, note="UF multiplier; congruence r = a b mod p is assumed residue"))
+               timeout=600, tier="quick", min_obl=300, replay=False, note="UF multiplier; congruence r = a b mod p is assumed residue"))
 UNITS.append(U("C05.fe_sqr_inner", ["C05"], FM, "h_fe_sqr_inner", verify=True, replace=UF, assumed=[], functions=["secp256k1_fe_sqr_inner"],
-               timeout=1500, tier="quick", min_obl=200, replay=False, note="UF multiplier; congruence r = a^2 mod p is assumed residue"))
+               timeout=600, tier="quick", min_obl=200, replay=False, note="UF multiplier; congruence r = a^2 mod p is assumed residue"))
 UNITS.append(U("C05.umul_axioms", ["C05"], FM, "h_umul_axioms", functions=UF, timeout=600, tier="quick", replay=False,
                note="bit-length axioms (B) of the UF multiplier contract, on the real multiplier"))
 UNITS.append(U("C05.fe_mul_inner.W128S", ["C05"], FM, "h_fe_mul_inner", cfg="W128S", verify=True, replace=UF, functions=["secp256k1_fe_mul_inner"], timeout=3000, tier="thorough", replay=False))
 UNITS.append(U("C05.fe_sqr_inner.W128S", ["C05"], FM, "h_fe_sqr_inner", cfg="W128S", verify=True, replace=UF, functions=["secp256k1_fe_sqr_inner"], timeout=3000, tier="thorough", replay=False))
-UNITS.append(U("C05.fe_mul_inner.W64", ["C05"], FM, "h_fe_mul_inner", cfg="W64", verify=True, functions=["secp256k1_fe_mul_inner"], timeout=3600, tier="thorough", replay=False,
+UNITS.append(U("C05.fe_mul_inner.W64", ["C05"], FM, "h_fe_mul_inner", cfg="W64", verify=True, functions=["secp256k1_fe_mul_inner"], timeout=1500, tier="thorough", replay=False,
                note="10x26: native 32x32->64 products, no UF"))
-UNITS.append(U("C05.fe_sqr_inner.W64", ["C05"], FM, "h_fe_sqr_inner", cfg="W64", verify=True, functions=["secp256k1_fe_sqr_inner"], timeout=3600, tier="thorough", replay=False))
+UNITS.append(U("C05.fe_sqr_inner.W64", ["C05"], FM, "h_fe_sqr_inner", cfg="W64", verify=True, functions=["secp256k1_fe_sqr_inner"], timeout=1500, tier="thorough", replay=False))
 
 # ---- part (b): group_impl.h magnitude bookkeeping with -DVERIFY
 GR = "harness/C05/arith_group.c"
@@ -107,9 +117,9 @@ UNITS.append(U("C05.sc_mul_512", ["C05"], SM, "h_sc_mul_512", verify=True, repla
 UNITS.append(U("C05.sc_reduce_512", ["C05"], SM, "h_sc_reduce_512", verify=True, functions=["secp256k1_scalar_reduce_512"],
                tier="quick", timeout=900, replay=False, note="real multiplications by the constant limbs of 2^256-n"))
 UNITS.append(U("C05.sc_mul_512.W64", ["C05"], SM, "h_sc_mul_512", cfg="W64", verify=True, functions=["secp256k1_scalar_mul_512", "secp256k1_scalar_sqr_512"],
-               tier="thorough", timeout=3600, replay=False, note="8x32: native 32x32->64 products"))
+               tier="thorough", timeout=1500, replay=False, note="8x32: native 32x32->64 products"))
 UNITS.append(U("C05.sc_reduce_512.W64", ["C05"], SM, "h_sc_reduce_512", cfg="W64", verify=True, functions=["secp256k1_scalar_reduce_512"],
-               tier="thorough", timeout=3600, replay=False))
+               tier="thorough", timeout=1500, replay=False))
 fam("fe_signed", FE, "h_fe_signed", ["secp256k1_fe_to_signed62", "secp256k1_fe_from_signed62", "secp256k1_scalar_to_signed62", "secp256k1_scalar_from_signed62", "secp256k1_fe_impl_get_bounds"], quick=False)
 UNITS.append(U("C05.sc_reduce_512_value", ["C05"], SM, "h_sc_reduce_512_value", functions=["secp256k1_scalar_reduce_512"],
                tier="thorough", timeout=3600, replay=False, solver="cadical", note="r == l mod n via three limb-wise folds; multiplications by the constant limbs of 2^256-n are real"))
